@@ -117,10 +117,12 @@ def run_subsets(ctx, case):
         want_p = ref.born_marginal(psi, n, keep)
         zero = bool(np.any(want_p < 1e-14))
         seen = set()
+        kept = []  # results handed out earlier must stay intact when further measurements are made (no shared buffers)
         for sd in range(nseeds):
             seed = int(r.integers(0, 2 ** 31))
             bits, o, q1 = check_measure(ctx, psi, n, keep, seed, form=(sd + ki) % 3)
             seen.add(o)
+            kept.append((q1, q1.copy()))
             # same seed -> same outcome
             bits2, _, _ = nq.sim.state.measure_quantum_vector(psi.copy(), tuple(keep), seed=seed)
             ctx.require(list(bits2) == list(bits), 'same seed gives the same outcome')
@@ -130,6 +132,8 @@ def run_subsets(ctx, case):
             ctx.close(prob3[o], 1.0, 1e-12, 're-measurement outcome has probability one')
             ctx.close(q3, q1, 1e-12, 're-measurement leaves the state unchanged')
             ctx.tick()
+        for obj, cp in kept:
+            ctx.close(obj, cp, 0, 'a post-measurement state returned earlier is not overwritten by later measurements')
         if zero:
             ctx.label('zero-probability outcome present')
         ctx.label(f'reach={len(seen)}/{int((want_p > 1e-14).sum())}' if len(keep) <= 2 else 'reach:n/a')
